@@ -713,7 +713,9 @@ class Exec:
             return delta
         if step == I(-1):
             return sym.neg(delta)
-        if delta == step:
+        if delta == step or sym.trip_counts_nonneg(delta) == step:
+            # (the amount is the trip count of an inner loop over [0, step): equal to step when step >= 0, and an ascending
+            # loop with a negative step does not terminate)
             return I(1)
         cd, cs = sym.const_value(delta), sym.const_value(step)
         if cd is not None and cs not in (None, 0) and cd % cs == 0:
